@@ -76,21 +76,102 @@ func (p *Prog) DeclaredFuncs() []string {
 	return out
 }
 
-// LoadBaseline reads tables/baseline_funcs.json.
+// DeclaredFuncSigs maps the key of every declared function to its signature (receiver excluded).
+func (p *Prog) DeclaredFuncSigs() map[string]string {
+	out := map[string]string{}
+	for _, pk := range p.Pkgs {
+		for _, f := range pk.Syntax {
+			for _, d := range f.Decls {
+				if fd, ok := d.(*ast.FuncDecl); ok {
+					if obj, ok := pk.TypesInfo.Defs[fd.Name].(*types.Func); ok {
+						out[FuncKey(obj)] = types.TypeString(obj.Type(), nil)
+					}
+				}
+			}
+		}
+	}
+	return out
+}
+
+// LoadBaseline reads tables/baseline_funcs.json: {function key: signature} of the audited tree
+// (an older form, a plain list of keys, is accepted).
 func LoadBaseline(path string) (map[string]bool, error) {
+	m, _, err := LoadBaselineSigs(path)
+	return m, err
+}
+
+func LoadBaselineSigs(path string) (map[string]bool, map[string]string, error) {
 	b, err := os.ReadFile(path)
 	if err != nil {
-		return nil, err
+		return nil, nil, err
 	}
-	var l []string
-	if err := json.Unmarshal(b, &l); err != nil {
-		return nil, err
+	sigs := map[string]string{}
+	if err := json.Unmarshal(b, &sigs); err != nil {
+		var l []string
+		if err2 := json.Unmarshal(b, &l); err2 != nil {
+			return nil, nil, err
+		}
+		for _, s := range l {
+			sigs[s] = ""
+		}
 	}
 	m := map[string]bool{}
-	for _, s := range l {
+	for s := range sigs {
 		m[s] = true
 	}
-	return m, nil
+	return m, sigs, nil
+}
+
+// funcAlias maps the display name of a function that was RENAMED since the audited tree to the
+// name it had there, so that construct keys (triage table, known findings, evidence) and
+// name-based anchors survive a rename. Filled by ResolveRenames.
+var funcAlias = map[string]string{}
+
+// ResolveRenames pairs functions that are declared now but absent from the baseline with
+// baseline functions that no longer exist: same package and receiver, identical signature, and
+// the pairing is unambiguous in both directions. Returns new key -> old key.
+func (p *Prog) ResolveRenames(sigs map[string]string) map[string]string {
+	now := p.DeclaredFuncSigs()
+	prefix := func(k string) string {
+		if i := strings.LastIndex(k, "."); i >= 0 {
+			return k[:i+1]
+		}
+		return ""
+	}
+	var missing, fresh []string
+	for k := range sigs {
+		if _, ok := now[k]; !ok && sigs[k] != "" {
+			missing = append(missing, k)
+		}
+	}
+	for k := range now {
+		if _, ok := sigs[k]; !ok {
+			fresh = append(fresh, k)
+		}
+	}
+	sort.Strings(missing)
+	sort.Strings(fresh)
+	claim := map[string][]string{} // old -> new candidates
+	cand := map[string][]string{}  // new -> old candidates
+	for _, f := range fresh {
+		for _, m := range missing {
+			if prefix(m) == prefix(f) && sigs[m] == now[f] {
+				cand[f] = append(cand[f], m)
+				claim[m] = append(claim[m], f)
+			}
+		}
+	}
+	out := map[string]string{}
+	for f, ms := range cand {
+		if len(ms) == 1 && len(claim[ms[0]]) == 1 {
+			out[f] = ms[0]
+		}
+	}
+	p.Renamed = out
+	for n, o := range out {
+		funcAlias[n] = o
+	}
+	return out
 }
 
 // InlineReport says what the normalisation did.
@@ -161,7 +242,7 @@ func NormaliseNewFunctions(p *Prog, baseline map[string]bool, maxRounds int) (*P
 		if err != nil {
 			return nil, rep, fmt.Errorf("the normalised program does not type-check (normalisation abandoned): %w", err)
 		}
-		cur = next
+		cur = next.inherit(p)
 	}
 	if rep.Rounds == 0 {
 		return nil, rep, nil
@@ -170,7 +251,7 @@ func NormaliseNewFunctions(p *Prog, baseline map[string]bool, maxRounds int) (*P
 	// enumerate "every function containing X" do not see the dead copy)
 	if removed := removeDeadNew(cur, baseline, overlay); len(removed) > 0 {
 		if next, err := LoadOverlay(p.Repo, overlay, p.Whole); err == nil {
-			cur = next
+			cur = next.inherit(p)
 			rep.Removed = removed
 		} else {
 			// keep the declarations: restore the files from the previous program
@@ -218,6 +299,11 @@ func LoadOverlay(repo string, overlay map[string][]byte, whole bool) (*Prog, err
 	return p, nil
 }
 
+func (p *Prog) inherit(from *Prog) *Prog {
+	p.Renamed = from.Renamed
+	return p
+}
+
 func inlineRound(p *Prog, baseline map[string]bool, overlay map[string][]byte, rep *InlineReport, counter *int) (int, error) {
 	// new functions, by object
 	type newFn struct {
@@ -235,7 +321,7 @@ func inlineRound(p *Prog, baseline map[string]bool, overlay map[string][]byte, r
 					continue
 				}
 				obj, ok := pk.TypesInfo.Defs[fd.Name].(*types.Func)
-				if !ok || baseline[FuncKey(obj)] {
+				if !ok || baseline[FuncKey(obj)] || p.Renamed[FuncKey(obj)] != "" {
 					continue
 				}
 				news[obj] = &newFn{obj, fd, pk, f}
@@ -377,7 +463,7 @@ func planInline(p *Prog, pk *packages.Package, file *ast.File, tf *token.File, s
 	}
 	// callee body restrictions
 	bad := ""
-	deferBad := "" // only matters when the call is not in tail position
+	deferBad := ""              // only matters when the call is not in tail position
 	var defers []*ast.DeferStmt // top-level `defer f()` of the callee, run before each later exit
 	var returns []*ast.ReturnStmt
 	var walk func(n ast.Node, inLit bool)
@@ -1091,7 +1177,7 @@ func removeDeadNew(p *Prog, baseline map[string]bool, overlay map[string][]byte)
 					continue
 				}
 				obj, ok := pk.TypesInfo.Defs[fd.Name].(*types.Func)
-				if !ok || baseline[FuncKey(obj)] || used[obj] || obj.Exported() {
+				if !ok || baseline[FuncKey(obj)] || p.Renamed[FuncKey(obj)] != "" || used[obj] || obj.Exported() {
 					continue
 				}
 				if obj.Name() == "init" || obj.Name() == "main" {
@@ -1144,4 +1230,103 @@ func (p *Prog) usesRecover() bool {
 		}
 	}
 	return p.recoverUsed
+}
+
+// ---- renamed struct fields ----
+
+// fieldAlias maps "pkgpath.Type.newField" to the field's name on the audited tree.
+var fieldAlias = map[string]string{}
+
+// DeclaredFields lists, for every named struct type of the module, its fields as [name, type].
+func (p *Prog) DeclaredFields() map[string][][2]string {
+	out := map[string][][2]string{}
+	for _, pk := range p.Pkgs {
+		sc := pk.Types.Scope()
+		for _, n := range sc.Names() {
+			tn, ok := sc.Lookup(n).(*types.TypeName)
+			if !ok {
+				continue
+			}
+			st, ok := tn.Type().Underlying().(*types.Struct)
+			if !ok {
+				continue
+			}
+			var fs [][2]string
+			for i := 0; i < st.NumFields(); i++ {
+				fs = append(fs, [2]string{st.Field(i).Name(), types.TypeString(st.Field(i).Type(), nil)})
+			}
+			out[pk.PkgPath+"."+n] = fs
+		}
+	}
+	return out
+}
+
+// ResolveFieldRenames pairs, per struct type, fields present now but not on the audited tree
+// with fields of the audited tree that no longer exist, when the types are equal and the
+// pairing is unambiguous both ways.
+func (p *Prog) ResolveFieldRenames(base map[string][][2]string) map[string]string {
+	out := map[string]string{}
+	now := p.DeclaredFields()
+	for tn, bfs := range base {
+		cfs, ok := now[tn]
+		if !ok {
+			continue
+		}
+		has := func(fs [][2]string, n string) bool {
+			for _, f := range fs {
+				if f[0] == n {
+					return true
+				}
+			}
+			return false
+		}
+		var missing, fresh [][2]string
+		for _, f := range bfs {
+			if !has(cfs, f[0]) {
+				missing = append(missing, f)
+			}
+		}
+		for _, f := range cfs {
+			if !has(bfs, f[0]) {
+				fresh = append(fresh, f)
+			}
+		}
+		for _, f := range fresh {
+			var c [][2]string
+			for _, m := range missing {
+				if m[1] == f[1] {
+					c = append(c, m)
+				}
+			}
+			if len(c) != 1 {
+				continue
+			}
+			n := 0
+			for _, f2 := range fresh {
+				if f2[1] == c[0][1] {
+					n++
+				}
+			}
+			if n == 1 {
+				out[tn+"."+f[0]] = c[0][0]
+			}
+		}
+	}
+	for k, v := range out {
+		fieldAlias[k] = v
+	}
+	return out
+}
+
+// LoadBaselineFields reads tables/baseline_fields.json.
+func LoadBaselineFields(path string) (map[string][][2]string, error) {
+	b, err := os.ReadFile(path)
+	if err != nil {
+		return nil, err
+	}
+	m := map[string][][2]string{}
+	if err := json.Unmarshal(b, &m); err != nil {
+		return nil, err
+	}
+	return m, nil
 }
